@@ -21,6 +21,10 @@ func (b *Builder) MapFlags(t *types.Map) (flags int) {
 	return MapTypeFlags(t, b.Sizes)
 }
 
+func (b *Builder) MapSlotSizes(t *types.Map) (keySize, elemSize int64) {
+	return MapSlotSizes(t, b.Sizes)
+}
+
 func (b *Builder) realStr(t types.Type) string {
 	t = PublicType(t)
 	// The TFlag check must use the public type; Str also normalizes its input
